@@ -41,6 +41,8 @@ def run_cli(argv):
             rc = cli.main(list(argv))
         except SystemExit as e:
             rc = e.code
+        except BaseException as e:       # a traceback instead of "mosromgr error: ..." and status 2
+            rc = 'EXC:' + type(e).__name__
     return rc, out.getvalue(), err.getvalue()
 
 
@@ -213,6 +215,15 @@ def merge_files(s, rng, tmpdir):
         p = os.path.join(tmpdir, rng.choice(['m%02d.mos.xml', 'm %02d.mos.xml', 'mö%02d.mos.xml', 'm[%02d].mos.xml', 'm%02d*.mos.xml']) % j)
         write_doc(rng, p, docs[j])
         paths.append(p)
+    if rng.random() < 0.06 and len(paths) > 1:
+        # a classifiable message whose envelope lacks a usable messageID: the library cannot order it
+        import re as _re
+        victim = rng.choice(paths)
+        txt = open(victim, 'rb').read().decode('utf-8', 'ignore')
+        if '<roCreate' not in txt and txt.lstrip().startswith('<mos'):
+            open(victim, 'w', encoding='utf-8').write(
+                _re.sub(r'<messageID>[^<]*</messageID>', rng.choice(['', '<messageID/>', '<messageID>x1</messageID>']), txt, 1))
+            flavour = 'no-messageid'
     r = rng.random()
     if r < 0.08:
         p = os.path.join(tmpdir, 'broken.mos.xml')
